@@ -16,7 +16,7 @@ EXPLANATION = (
 )
 TRUSTED = ["A-ENGINE", "str.upper abstracted (idempotent, literal table)", "A-DBU: dbutils.fs as a map URI -> content with head/put/cp/rm (contracts/dbfs_store.py) in the proofs, an in-process fake with the same behaviour in the bounded part; pyspark blobs assumed away",
            "LAYOUT-INJ (hypothesis): record / object / blob / metadata locations are injective in path resp. key and pairwise disjoint; _physical_path, _blob_path, _blob_meta_path are layout definitions", "A-LIB: json.loads(json.dumps(x)) == x"]
-ASSUMPTIONS = ["A-DBU", "A-LOG"]
+ASSUMPTIONS = ["A-DBU", "A-LOG", "A-LIB", "LAYOUT-INJ (hypothesis)", "no pyspark blob (assumed away)"]
 LEVEL_TEXT = "Deductive proof of the option decoding, the legacy alias table and the commit-type semantics of sync_paths / fetch_paths / has_blob over a map model of dbutils.fs; blob round trips through codecs and the end-to-end behaviour are a bounded stand-in against a fake, hence 'other'."
 DESIGN_REF = "5 (C19)"
 class _Replay(dict):
